@@ -66,6 +66,7 @@ type upSource struct {
 	maxLive int
 	subs    []*upSub
 	pre     [][]Tok
+	ctxs    []string // the context markers of each subscription, in order (C09)
 	yield   int    // concurrent variants: Gosched this many times inside Subscribe (widens races)
 	inside  func() // nested events: run once, inside the next Subscribe, after the prefix
 	strict  bool   // concurrent kinds: never push to a subscription that is over
@@ -75,6 +76,7 @@ func (p *upSource) Observable() ro.Observable[int] {
 	return ro.NewUnsafeObservableWithContext(func(ctx context.Context, dest ro.Observer[int]) ro.Teardown {
 		u := &upSub{dest: dest, ctx: ctx}
 		p.mu.Lock()
+		p.ctxs = append(p.ctxs, renderCtx(ctx))
 		k := p.total
 		p.total++
 		p.live++
@@ -393,7 +395,7 @@ func runShareCase(c *Case) string {
 					}
 				}
 			}
-			subs[i] = shared.SubscribeWithContext(context.Background(), bareObserver(r))
+			subs[i] = shared.SubscribeWithContext(ctxFromMarks([]int{7, 70 + i}), bareObserver(r))
 			src.inside = nil
 		case 'U':
 			if e.arg < len(subs) && subs[e.arg] != nil {
@@ -456,8 +458,16 @@ func runShareCase(c *Case) string {
 	if justSrc {
 		up = nil
 	}
-	return fmt.Sprintf("res %s traces=%s up=%s drops=%s unhandled=%s escaped=%s", c.id, tr, joinOrDash(up),
-		renderHookList(rec.drops), renderHookList(rec.unhandled), joinOrDash(escaped))
+	uctx := "-"
+	if !justSrc {
+		src.mu.Lock()
+		if len(src.ctxs) > 0 {
+			uctx = strings.Join(src.ctxs, ";")
+		}
+		src.mu.Unlock()
+	}
+	return fmt.Sprintf("res %s traces=%s up=%s drops=%s unhandled=%s escaped=%s uctx=%s", c.id, tr, joinOrDash(up),
+		renderHookList(rec.drops), renderHookList(rec.unhandled), joinOrDash(escaped), uctx)
 }
 
 // ---------- connectable ----------
